@@ -259,7 +259,7 @@ class SimConsole:
             k = self.inst["names_key"]
             zs = sorted(zs, key=lambda z: (z["id"] * k) % 17)
         if self.gen == 4:
-            body = b"".join(bytes([z["id"]]) + R._name_fixed(z["name"], 8) for z in zs)
+            body = b"".join(bytes([z["id"]]) + R._name_fixed(z["name"], 8, z.get("name_tail")) for z in zs)
             return self.f_ext(0xFF12, body, pid)
         body = b"".join(bytes([z["id"], len(z["name"].encode())]) + z["name"].encode()
                         for z in zs)
